@@ -38,7 +38,8 @@ let hash (mht : n) (bs : bytes) : bytes =
 
 let parse_chunks (s : string) : bytes list = List.map bytes_of_hex (split '+' s)
 
-let json_werr_ignored = ref true
+let json_werr_ignored = ref true   (* refmt's JSON encoder drops the error of a failed Write *)
+let store_latch = ref true         (* Store latches the first write error (fix 4c486a6) *)
 
 let table_codec (code : string) : codec =
   { c_enc = (fun v ->
@@ -63,9 +64,59 @@ let table_codec (code : string) : codec =
 
 let reject_tags = true
 
-let registry (code : n) : codec option =
-  if code = n_of_int 0x70 then Some (dagcbor_codec reject_tags)   (* harness registers dag-cbor under dag-pb *)
-  else default_registry reject_tags (table_codec "129") (table_codec "200") code
+(* a concretely modelled codec whose output is cut at the REAL encoder's write boundaries when the
+   harness printed them (store records of c06: a write schedule counts Write calls); the bytes are
+   the model's — if the real writes do not concatenate to them the model's single chunk is kept *)
+let with_real_chunks (code : string) (c : codec) : codec =
+  { c with c_enc = (fun v ->
+        match c.c_enc v with
+        | Some [bs] ->
+          (match Hashtbl.find_opt tab ("E" ^ code ^ "." ^ string_of_dm v) with
+           | Some s when String.length s > 0 && s.[0] = 'c' ->
+             let chunks = parse_chunks (String.sub s 1 (String.length s - 1)) in
+             if List.concat chunks = bs then Some chunks else Some [bs]
+           | _ -> Some [bs])
+        | r -> r) }
+
+(* an implementation, named by its canonical multicodec code (hex) *)
+let impl_codec (impl : string) : codec option =
+  match impl with
+  | "71" -> Some (with_real_chunks "71" (dagcbor_codec reject_tags))
+  | "51" -> Some (with_real_chunks "51" (plaincbor_codec reject_tags))
+  | "55" -> Some (with_real_chunks "55" raw_codec)
+  | "129" -> Some (table_codec "129")
+  | "200" -> Some (table_codec "200")
+  | _ -> None
+
+(* registry description: "G" (the global registry as the harness sets it up) or
+   "R:<code>=<impl>[:e|:d],..." -> encoder table, decoder table (code hex -> impl hex) *)
+let global_spec = "70=71,71=71,51=51,129=129,200=200,55=55"
+
+let parse_reg (s : string) : (string * string) list * (string * string) list =
+  let body = if s = "G" then global_spec
+    else if String.length s >= 2 && String.sub s 0 2 = "R:" then String.sub s 2 (String.length s - 2)
+    else failwith ("bad registry " ^ s) in
+  let encs = ref [] and decs = ref [] in
+  if body <> "" then
+    List.iter (fun ent ->
+        match split '=' ent with
+        | [code; v] ->
+          (match split ':' v with
+           | [impl] -> encs := (code, impl) :: !encs; decs := (code, impl) :: !decs
+           | [impl; "e"] -> encs := (code, impl) :: !encs
+           | [impl; "d"] -> decs := (code, impl) :: !decs
+           | _ -> failwith ("bad registry entry " ^ ent))
+        | _ -> failwith ("bad registry entry " ^ ent)) (split ',' body);
+  (!encs, !decs)
+
+let reg_fun (tbl : (string * string) list) : n -> codec option =
+  fun code -> match List.assoc_opt (hex_of_n code) tbl with
+    | Some impl -> impl_codec impl
+    | None -> None
+
+let global_encs, global_decs = parse_reg "G"
+let g_encoders = reg_fun global_encs
+let g_decoders = reg_fun global_decs
 
 (* ------------------------------------------------------------------ parsing *)
 
@@ -121,23 +172,52 @@ let storage_text (st : storage) : string =
 
 (* ------------------------------------------------------------------ spec helpers *)
 
-let sorting_codec c = (c = "71" || c = "70" || c = "129")
-let canon (codec_hex : string) (v : dm) : dm =
-  if codec_hex = "71" || codec_hex = "70" then sort_maps rfc_ltb v
-  else if codec_hex = "129" then sort_maps bytes_ltb v
+(* canonical form of a value under an implementation (named by its canonical code) *)
+let canon (impl : string) (v : dm) : dm =
+  if impl = "71" then sort_maps rfc_ltb v
+  else if impl = "129" then sort_maps bytes_ltb v
   else v
 
 let add_fail fails c = if not (List.mem c !fails) then fails := c :: !fails
 let verdict_of fails = if !fails = [] then "ok" else "fail:" ^ String.concat "," (List.rev !fails)
 
+(* ------------------------------------------------------------------ write schedules *)
+
+let parse_sched (s : string) : wact list =
+  if s = "-" || s = "" then [] else
+    List.map (fun a ->
+        if a = "f" then WFail
+        else if String.length a > 1 && a.[0] = 's' then WShort (n_of_int (int_of_string (String.sub a 1 (String.length a - 1))))
+        else WOk) (split ',' s)
+
+(* SPEC side: does some Write of the encoder's output fail (or come back short) at the storage
+   writer?  Up to the first failure every Write of the encoder reaches the writer, so this does not
+   depend on what the implementation does afterwards. *)
+let first_failure (cap : int) (sched : wact list) (chunks : bytes list) : bool =
+  let rec go used sched chunks =
+    match chunks with
+    | [] -> false
+    | c :: r ->
+      let len = List.length c in
+      if cap >= 0 && used + len > cap then true
+      else
+        let (a, sched') = (match sched with a :: t -> (a, t) | [] -> (WOk, [])) in
+        (match a with
+         | WFail -> true
+         | WShort n when int_of_n n < len -> true
+         | _ -> go (used + len) sched' r) in
+  go 0 sched chunks
+
 (* ------------------------------------------------------------------ C05: histories *)
 
-type pop = PS of bool * string * lproto * dm | PG of string * bytes   (* is_store, proto text, ...; form, link *)
+(* is_store, write schedule (stores through a misbehaving writer), proto text, ...; form, link *)
+type pop = PS of bool * wact list option * string * lproto * dm | PG of string * bytes
 
 let parse_op (s : string) : pop =
   match split ':' s with
-  | ["S"; p; _h; v] -> PS (true, p, parse_proto p, dm_of_string v)
-  | ["C"; p; _h; v] -> PS (false, p, parse_proto p, dm_of_string v)
+  | ["S"; p; _h; v] -> PS (true, None, p, parse_proto p, dm_of_string v)
+  | ["W"; p; _h; sc; v] -> PS (true, Some (parse_sched sc), p, parse_proto p, dm_of_string v)
+  | ["C"; p; _h; v] -> PS (false, None, p, parse_proto p, dm_of_string v)
   | ["G"; f; l] -> PG (f, bytes_of_hex l)
   | _ -> failwith ("bad op " ^ s)
 
@@ -151,18 +231,22 @@ let proto_in_space (p : string) : bool =
     else v = "1" && (m = "0" || (l >= -1 && l <= full))
   | _ -> false
 
-let do_hist id kind trusted ops_text obs =
+let do_hist id kind trusted reg_text ops_text obs =
+  let (encs, decs) = parse_reg reg_text in
+  let encoders = reg_fun encs and decoders = reg_fun decs in
   let pops = List.map parse_op (split ';' ops_text) in
   let sk = if kind = "cid" then cidmem_kind else memstore_kind in
   let bad = ref false in
   let ops = List.map (function
-      | PS (true, _, lp, v) -> OStore (lp, v)
-      | PS (false, _, lp, v) -> OCompute (lp, v)
+      | PS (true, None, _, lp, v) -> OStore (lp, v)
+      | PS (true, Some sc, _, lp, v) ->
+        OStoreW ({ w_open_err = false; w_cap = None; w_sched = sc; w_commit_err = false }, lp, v)
+      | PS (false, _, _, lp, v) -> OCompute (lp, v)
       | PG (f, lb) ->
         (match parse_link lb with
          | Some l -> OLoad (form_of f, l)
          | None -> bad := true; OLoad (form_of f, { l_v0 = false; l_codec = N0; l_mhtype = N0; l_digest = [] }))) pops in
-  let (outs, st) = run hasher_ok hash registry sk trusted [] ops in
+  let (outs, st) = run hasher_ok hash encoders decoders !store_latch sk trusted [] ops in
   let model_obs =
     String.concat ";" (List.map (function OutS s -> sout_text s | OutL o -> lout_text o) outs @ [storage_text st]) in
   let model_obs = if !missing then model_obs ^ ";!table-entry-missing" else model_obs in
@@ -171,7 +255,7 @@ let do_hist id kind trusted ops_text obs =
   let fails = ref [] in
   let nops = List.length pops in
   let skip = ref (!bad) in
-  List.iter (function PS (_, ptext, _, _) -> if not (proto_in_space ptext) then skip := true | _ -> ()) pops;
+  List.iter (function PS (_, _, ptext, _, _) -> if not (proto_in_space ptext) then skip := true | _ -> ()) pops;
   Array.iter (fun o -> if o = "builderr/-" || o = "badlink/-/-" then skip := true) iobs;
   if !skip then ()
   else if Array.length iobs <> nops + 1 then add_fail fails "malformed_obs"
@@ -183,11 +267,26 @@ let do_hist id kind trusted ops_text obs =
     List.iteri (fun i op ->
         let o = iobs.(i) in
         match op with
-        | PS (is_store, ptext, lp, v) ->
+        | PS (is_store, wsched, ptext, lp, v) ->
+          (* a Write of the encoder's output fails (or is short) at the storage writer: the store
+             must not succeed; nothing else is asked of it *)
+          let write_fails = (match wsched with
+              | None -> false
+              | Some sc ->
+                (match encoders lp.lp_codec with
+                 | Some c -> (match c.c_enc v with Some chunks -> first_failure (-1) sc chunks | None -> false)
+                 | None -> false)) in
           if o = "builderr/-" then skip := true
           else if not (proto_in_space ptext) then skip := true
+          else if write_fails then begin
+            if (match split '/' o with st :: _ -> st = "ok" | [] -> true)
+            then add_fail fails "store_ok_after_write_error"
+          end
           else begin
-            let ch = proto_codec_hex ptext in
+            (* the implementation this registry binds the prototype's code to, for encoding *)
+            let ch = (match List.assoc_opt (proto_codec_hex ptext) encs with Some i -> i | None -> "none") in
+            if ch = "none" && (match split '/' o with st :: _ -> st <> "err.setup" | [] -> true)
+            then add_fail fails "store_without_encoder";
             let cv = string_of_dm (canon ch v) in
             let key = ptext ^ "|" ^ cv in
             (* store = compute = the same for every re-creation of the value, whatever came before *)
@@ -229,10 +328,21 @@ let do_hist id kind trusted ops_text obs =
                    (* nothing was ever stored under this key: no data may come back *)
                    if st = "ok" || node <> "-" || raw <> "-" then add_fail fails "phantom_load"
                  | [_], Some (ch, cv) ->
-                   (* the stored link, no collision on its key: the value and the bytes come back *)
-                   if st <> "ok" then add_fail fails "store_load"
+                   (* the stored link, no collision on its key: the value and the bytes come back —
+                      through the decoder THIS registry binds the link's code to *)
+                   let di = List.assoc_opt (hex_of_n (link_proto l).lp_codec) decs in
+                   let want_node = (f <> "r") and want_raw = (f = "r" || f = "p") in
+                   if want_node && di = None then begin
+                     if st <> "err.setup" || node <> "-" || raw <> "-" then add_fail fails "load_without_decoder"
+                   end
+                   else if want_node && di <> Some ch then begin
+                     (* bound to different implementations for the two directions: only the bytes are specified *)
+                     if st = "ok" && String.length raw > 0 && raw.[0] = 'x' then
+                       let rb = bytes_of_hex (String.sub raw 1 (String.length raw - 1)) in
+                       (match verify hash l rb with VOk -> () | _ -> add_fail fails "raw_hash")
+                   end
+                   else if st <> "ok" then add_fail fails "store_load"
                    else begin
-                     let want_node = (f <> "r") and want_raw = (f = "r" || f = "p") in
                      if want_node then begin
                        if node = "-" then add_fail fails "store_load_no_node"
                        else if node <> cv then add_fail fails "store_load_value"
@@ -269,7 +379,8 @@ let do_hist id kind trusted ops_text obs =
 
 (* ------------------------------------------------------------------ C06: single loads and stores *)
 
-let chunks_of (s : string) : bytes list = if s = "" then [] else parse_chunks s
+let chunks_of (s : string) : bytes list =
+  if s = "" then [] else List.map (fun p -> if p = "_" then [] else bytes_of_hex p) (split '+' s)
 
 let do_load form trusted link_hex stream tail obs =
   match parse_link (bytes_of_hex link_hex) with
@@ -281,7 +392,7 @@ let do_load form trusted link_hex stream tail obs =
         | "err" -> RStream (chunks, TErr)
         | _ -> RStream (chunks, TEof)) in
     let f = form_of form in
-    let o = load_any hasher_ok hash registry f trusted ro l in
+    let o = load_any hasher_ok hash g_decoders f trusted ro l in
     let model_obs = lout_text o ^ (if !missing then "/!table-entry-missing" else "") in
     (* ---- oracle *)
     let fails = ref [] in
@@ -291,7 +402,7 @@ let do_load form trusted link_hex stream tail obs =
        let data = List.concat chunks in
        let verifies = f = FLoadRaw || f = FLoadPlusRaw || not trusted in
        let p = link_proto l in
-       let spec_dec = (match registry p.lp_codec with Some c -> Some (c.c_dec data) | None -> None) in
+       let spec_dec = (match g_decoders p.lp_codec with Some c -> Some (c.c_dec data) | None -> None) in
        if tail = "open" || tail = "err" then begin
          (* I/O failure: an error, and neither a node nor bytes *)
          if st = "ok" then add_fail fails "io_swallowed";
@@ -317,9 +428,21 @@ let do_load form trusted link_hex stream tail obs =
              if f = FLoadRaw || f = FLoadPlusRaw then
                if raw <> "x" ^ hex_of_bytes data then add_fail fails "raw_differs"
            end else begin
-             (* a block that hashes to its link may only be refused by the decoder *)
+             (* a block that hashes to its link may only be refused by the decoder's verdict on
+                those bytes.  Known defect (refmt's byte reader turns a (0, nil) read into a zero
+                byte): an empty read before more data of a genuine block makes Load / Fill report a
+                decode error for dag-cbor / cbor / dag-json / json blocks *)
+             let rec mid_empty = function
+               | [] -> false
+               | [] :: r -> List.exists (fun c -> c <> []) r || mid_empty r
+               | _ :: r -> mid_empty r in
+             let refmt_codec = (match List.assoc_opt (hex_of_n p.lp_codec) global_decs with
+                 | Some ("71" | "51" | "129" | "200") -> true | _ -> false) in
              if f = FLoadRaw then add_fail fails "valid_block_refused"
-             else if st <> "err.decode" || decoded <> None then add_fail fails "valid_block_refused";
+             else if st <> "err.decode" || decoded <> None then
+               add_fail fails
+                 (if (f = FLoad || f = FFill) && st = "err.decode" && refmt_codec && mid_empty chunks
+                  then "empty_read_mid_block" else "valid_block_refused");
              if node <> "-" then add_fail fails "node_with_error"
            end
        end
@@ -327,25 +450,29 @@ let do_load form trusted link_hex stream tail obs =
     List.iter (add_fail fails) !law_broken;
     (model_obs, if !fails <> [] then verdict_of fails else if !skip then "skip" else "ok")
 
-let do_store proto_text value wopen cap commiterr obs =
+let do_store proto_text value wopen cap sched_text commiterr obs =
   let lp = parse_proto proto_text in
   let v = dm_of_string value in
+  let sched = parse_sched sched_text in
   let w = { w_open_err = (wopen = "1");
             w_cap = (let c = int_of_string cap in if c < 0 then None else Some (n_of_int c));
+            w_sched = sched;
             w_commit_err = (commiterr = "1") } in
-  let (s, st) = store hasher_ok hash registry memstore_kind w [] lp v in
+  let (s, st) = store hasher_ok hash g_encoders !store_latch memstore_kind w [] lp v in
+  let cl = compute hasher_ok hash g_encoders lp v in
   let invoked = (match s.so_status with SOk | SErr ECommit -> true | _ -> false) in
   let model_obs =
     sout_text s ^ "/commit=" ^ (if invoked then "1" else "0") ^ "/" ^
     (match st with [(_, b)] -> "x" ^ hex_of_bytes b | _ -> "-")
+    ^ "/cl:" ^ status_name cl.so_status ^ ":" ^ (match cl.so_link with Some l -> hex_of_bytes (link_binary l) | None -> "-")
     ^ (if !missing then "/!table-entry-missing" else "") in
   (* ---- oracle *)
   let fails = ref [] in
   let skip = ref (not (proto_in_space proto_text)) in
-  let ch = proto_codec_hex proto_text in
+  let ch = (match List.assoc_opt (proto_codec_hex proto_text) global_encs with Some i -> i | None -> "none") in
   (match split '/' obs with
-   | [st_; lh; cm; bytes_] ->
-     (match registry lp.lp_codec with
+   | [st_; lh; cm; bytes_; cl_] ->
+     (match g_encoders lp.lp_codec with
       | None -> if st_ = "ok" || cm <> "commit=0" then add_fail fails "commit_without_setup"
       | Some c ->
         if not (hasher_ok lp.lp_mhtype) then begin
@@ -357,12 +484,22 @@ let do_store proto_text value wopen cap commiterr obs =
            if cm <> "commit=0" then add_fail fails "commit_after_encode_error"
          | Some chunks ->
            let full = List.concat chunks in
-           let total = List.length full in
            let capi = int_of_string cap in
+           (* whenever Store reports success: the committed bytes are the encoder's output, they
+              hash to the returned link, and the link is ComputeLink's *)
+           if st_ = "ok" && not !skip then begin
+             if bytes_ <> "x" ^ hex_of_bytes full then add_fail fails "committed_bytes_wrong";
+             if cl_ <> "cl:ok:" ^ lh then add_fail fails "store_ne_compute";
+             (match parse_link (bytes_of_hex lh), bytes_ with
+              | Some l, b when String.length b > 0 && b.[0] = 'x' ->
+                (match verify hash l (bytes_of_hex (String.sub b 1 (String.length b - 1))) with
+                 | VOk -> () | _ -> add_fail fails "committed_bytes_do_not_hash_to_link")
+              | _ -> add_fail fails "link_unparsable")
+           end;
            if wopen = "1" then begin
              if st_ = "ok" || cm <> "commit=0" then add_fail fails "commit_after_open_error"
-           end else if capi >= 0 && capi < total then begin
-             (* the storage writer failed during the encoder's output *)
+           end else if first_failure capi sched chunks then begin
+             (* a Write to the storage writer failed or was short during the encoder's output *)
              if st_ = "ok" || cm <> "commit=0" then
                add_fail fails (if ch = "129" || ch = "200" then "json_commit_after_write_error"
                                else "commit_after_write_error")
@@ -388,18 +525,20 @@ let () =
       let out id m v = print_string id; print_char '\t'; print_string m; print_char '\t'; print_endline v in
       match split_tab line with
       | [id; "cfg"; _; obs] ->
-        json_werr_ignored := (obs = "json_werr_ignored=1");
+        let flags = split ',' obs in
+        store_latch := List.mem "store_latch=1" flags;
+        json_werr_ignored := List.mem "json_werr_ignored=1" flags;
         out id obs "ok"
-      | [id; "hist"; kind; trusted; ops; tables; obs] ->
+      | [id; "hist"; kind; trusted; reg; ops; tables; obs] ->
         load_tables tables;
-        let (m, v) = (try do_hist id kind (trusted = "1") ops obs with Failure e -> ("driver-error:" ^ e, "ok")) in
+        let (m, v) = (try do_hist id kind (trusted = "1") reg ops obs with Failure e -> ("driver-error:" ^ e, "ok")) in
         out id m v
       | [id; "load"; form; trusted; link; stream; tail; tables; obs] ->
         load_tables tables;
         let (m, v) = (try do_load form (trusted = "1") link stream tail obs with Failure e -> ("driver-error:" ^ e, "ok")) in
         out id m v
-      | [id; "store"; proto; _holder; value; wopen; cap; commiterr; tables; obs] ->
+      | [id; "store"; proto; _holder; value; wopen; cap; sched; commiterr; tables; obs] ->
         load_tables tables;
-        let (m, v) = (try do_store proto value wopen cap commiterr obs with Failure e -> ("driver-error:" ^ e, "ok")) in
+        let (m, v) = (try do_store proto value wopen cap sched commiterr obs with Failure e -> ("driver-error:" ^ e, "ok")) in
         out id m v
       | _ -> ())
